@@ -263,7 +263,7 @@ def cmd_digests(pid, tier, out, fams):
         rep = X.explore(modname, fam, tier, want_digest=True)
         if not rep['exhaustive']:
             print('not exhaustive: %s %s' % (fam.name, rep['status']))
-            return 2
+            return 3
         res[fam.name] = rep['digests']
     json.dump(res, open(out, 'w'))
     return 0
